@@ -18,6 +18,54 @@ CLAIMS = {
         design_ref="DESIGN.md section 5, C01",
         note=TRUST + "Not covered: interleavings of concurrent senders, memswarm/udpswarm/quicswarm/sshswarm I/O, multiswarm/wlswarm/vswarm forwarding.",
     ),
+    "C02": dict(
+        category="proof",
+        text="Deductive proof of the counter, gating and ordering obligations of the p2pke session, with the cryptography behind assumed contracts: Session.Send encrypts only when the session can send, "
+             "with a counter >= 16 that it then increments (no counter is used twice with one cipher, counters 0..15 stay reserved for the handshake), and refuses at the message limit or after expiry; "
+             "Session.Deliver hands out application data only after a successful AEAD open under the counter taken from the header and consults the replay filter after, never before, decryption; "
+             "an error leaves the session state unchanged. At the channel, application data is returned only from a session that went through promotion.",
+        design_ref="DESIGN.md section 5, C02 and section 10",
+        note=TRUST + "Assumed, not proved: AEAD / Noise / signature soundness, the replay filter's at-most-once contract, frames of the crypto glue (assumeframe, listed per run). Concurrent Send calls are not covered (atomic counter modelled sequentially).",
+    ),
+    "C03": dict(
+        category="proof",
+        text="Deductive proof of the authentication gating of the p2pke session state machine: the handshake index advances only by the step relation of the protocol (0->1->3 for the responder, 0->2->4 for the initiator, ->8 on data), "
+             "each advance happens only after the corresponding reader returned nil, and each reader returns nil only after the peer's signature (or AEAD tag) over this handshake's channel binding verified; "
+             "canSend/canReceive/IsReady are exactly the index thresholds; data is refused before the thresholds.",
+        design_ref="DESIGN.md section 5, C03 and section 10",
+        note=TRUST + "Signature verification is an uninterpreted pure call whose true result is taken as proof of possession; Noise channel binding freshness is assumed.",
+    ),
+    "C04": dict(
+        category="proof",
+        text="Deductive proof for the p2pkeswarm glue: both AcceptKey closures the swarm builds consult the whitelist (and, for outbound channels, the requested identity) before returning true; "
+             "handleMessage attributes a delivered message to the fingerprint of the key returned by its channel's RemoteKey, with the transport source address and exactly the plaintext the channel returned; "
+             "getFullAddr returns a channel only after the fingerprint of its authenticated key equals the requested identity. Together with the channel contracts of C05 (AcceptKey is consulted in both roles).",
+        design_ref="DESIGN.md section 5, C04 and section 10",
+        note=TRUST + "quicswarm and sshswarm attribution are NOT covered (TLS / SSH library contracts would have to be assumed wholesale; the sshswarm PublicKeyCallback issue described in DESIGN.md section 6 is not decided by this check).",
+    ),
+    "C05": dict(
+        category="proof",
+        text="Deductive proof over the p2pke Channel: checkKey accepts only the bound key or, when none is bound, a key AcceptKey returned true for; newResp and onReadySession (both roles) go through it; "
+             "a session is promoted to current only by onReadySession; a failed promotion leaves previous/current sessions, the bound key and lastReceived untouched; the bound key changes only through a successful promotion and only to a key equal to the old one; "
+             "the slot invariant (previous/current ready, next not ready, pairwise distinct) is preserved by every channel operation.",
+        design_ref="DESIGN.md section 5, C05 and section 10",
+        note=TRUST + "Key bytes held by sessions are assumed not to be written after parsing. Interleavings of concurrent Deliver/Send are not decided (mutex sections are reasoned about sequentially).",
+    ),
+    "C06": dict(
+        category="proof",
+        text="Deductive proof of the per-message clauses of handshake robustness: Handshake/writeHandshake do not change the session (idempotent retransmission, same cached bytes), never panic under the session invariant; "
+             "readHandshake/Deliver never regress the handshake index, advance it only along the protocol's step relation, and leave index and counter unchanged on any error; data completes the initiator (index 8) even if RespDone was lost.",
+        design_ref="DESIGN.md section 5, C06 and section 10",
+        note=TRUST + "The convergence sentence (both sides become ready after one more in-order delivery) is a whole-history property and is not decided.",
+    ),
+    "C07": dict(
+        category="proof",
+        text="Deductive proof of the safety skeleton of channel establishment: a session that becomes ready in the next slot is promoted in the same Deliver call (also when application data is what made it ready), "
+             "the simultaneous-initiator tie-break keeps exactly one prospective session, lastReceived is refreshed by every delivered application message and by promotion, "
+             "and expireSessions tears the current session down only when it is expired or idle beyond KeepAliveTimeout.",
+        design_ref="DESIGN.md section 5, C07 and section 10",
+        note=TRUST + "The latency / liveness part of the property (Send completes within a bounded number of retransmission intervals) is not decided by contracts.",
+    ),
     "C08": dict(
         category="proof",
         text="No-panic proof for the parsers and reassemblers that consume network bytes: every index, slice, make, division and type-assertion obligation in the p2pmux demux functions, "
@@ -40,6 +88,28 @@ CLAIMS = {
         design_ref="DESIGN.md section 5, C10",
         note=TRUST + "Garbage collection timing of incomplete groups and concurrency of handleTell are not covered.",
     ),
+    "C11": dict(
+        category="proof",
+        text="Deductive proof of the sequential Ask clauses: AskHub.Deliver reports success only after the rendezvous send (the answer is the one the serving callback wrote into this request) and n == 0 with every error; "
+             "a closed hub always carries a non-nil error, so Ask / ServeAsk on a closed swarm fail; p2pmux dispatches an ask only after it demultiplexed without error and with exactly the demultiplexed body; "
+             "vswarm turns negative handler results into errors and refuses oversize asks; mbapp and sshswarm return an error, not a truncated success, when the response does not fit.",
+        design_ref="DESIGN.md section 5, C11 and section 10",
+        note=TRUST + "Matching of responses to concurrent asks by id (mbapp map, quic streams) and timing are not covered.",
+    ),
+    "C12": dict(
+        category="proof",
+        text="Deductive proof of: closed => stored error non-nil (both hubs, also for Close() without a reason); every blocking select in TellHub.Receive/Deliver and AskHub.ServeAsk/Deliver has a receive case on the hub's closed channel (wake-on-close obligation per select); "
+             "Receive/ServeAsk called on a closed hub return a non-nil error.",
+        design_ref="DESIGN.md section 5, C12 and section 10",
+        note=TRUST + "'No callback after Close returned', goroutine release and the Close methods of the composite swarms are not decided.",
+    ),
+    "C13": dict(
+        category="proof",
+        text="Deductive proof of: every blocking select in the hubs has a receive case on ctx.Done() and returns ctx.Err() through it (non-nil once Done is closed); Receive/ServeAsk return nil only after the callback was called; "
+             "a hub Deliver returns nil only through its rendezvous send and then waits for the request's done channel, which only the receiver closes, after its callback.",
+        design_ref="DESIGN.md section 5, C13 and section 10",
+        note=TRUST + "Exactly-one-receiver under races is a property of Go's channel semantics and is assumed; udpswarm.Receive ignoring its context (DESIGN.md section 6, row 17) is not covered by this check.",
+    ),
     "C15": dict(
         category="proof",
         text="Deductive proof, for all channel ids and payloads, that each of the five p2pmux framings (uint16/uint32/uint64/uvarint/string) is injective and self-delimiting: demux(mux(c, v)) == (c, concat(v)) and demux never panics or reads outside its input; "
@@ -47,12 +117,28 @@ CLAIMS = {
         design_ref="DESIGN.md section 5, C15",
         note=TRUST + "encoding/binary models are trusted. The dispatch of demuxed frames to per-channel hubs (a map lookup under a lock) is covered only by inspection, not by obligations.",
     ),
+    "C17": dict(
+        category="proof",
+        text="Deductive proof of the contract-expressible clauses: PeerID.UnmarshalText returns nil only if the base64 decoder reported no error and leaves the id unchanged on error; "
+             "x509.EqualPublicKeys is true exactly when algorithm and key bytes are equal; both default fingerprinters hash the canonical re-marshalled key and nothing else. "
+             "One known finding is reported on every run: quicswarm hashes with SHA3-256, p2pkeswarm with SHAKE-256.",
+        design_ref="DESIGN.md section 5, C17 and section 10",
+        note=TRUST + "The ASN.1 marshal/parse round trip and order preservation of the base64 alphabet are not decided (library code outside reach; no bounded stand-in built).",
+    ),
     "C18": dict(
         category="proof",
         text="Deductive proof of the kademlia Cache as a bounded map over an abstract view: bucket get/put/delete/expire/evict/update and Cache.bucketIndex/Get/Delete/evict/Expire/Update keep count == sum of bucket sizes <= max, locus never stored, "
              "Get after Put returns the stored entry, Delete/Expire remove only what they should, and eviction removes from the farthest non-empty bucket.",
         design_ref="DESIGN.md section 5, C18",
         note=TRUST + "Map model (domain/value/cardinality arrays, range yields each key once) and time.Time as an integer instant are assumptions. Some quantified postconditions of Cache.Update are unclaimed.",
+    ),
+    "C20": dict(
+        category="proof",
+        text="Deductive proof with a ghost set of contacted ids: dhtIterate never calls its callback twice with the same node id, whatever lists the callbacks return (loop invariant: contacted-ghost is a subset of the visited map); "
+             "DHTPut/DHTGet update Closest exactly when the answering node is the first or strictly nearer, count one acceptance / response per contacted node, and DHTPut reports an error exactly when accepted < required; "
+             "none of the four operations can hand dhtIterate a non-positive width.",
+        design_ref="DESIGN.md section 5, C20 and section 10",
+        note=TRUST + "Termination is not decided. Callbacks are arbitrary but assumed not to reach the iteration's local state.",
     ),
     "C19": dict(
         category="proof",
@@ -69,6 +155,7 @@ for _c in CLAIMS.values():
     _c.setdefault("technique", TECH)
 
 NOT_APPLICABLE = {
+    "C16": "The round trip goes through net/netip, regexp, strconv, base64 and fmt, none of which can be brought under contracts here, so no function-level contract can decide it; the planned bounded stand-in was not built, and an undecided property is not claimed (DESIGN.md section 5, C16 and section 10).",
     "C14": "Data-race freedom quantifies over the interleavings the Go memory model distinguishes; contracts on sequential function bodies (the technique studied here) cannot express or decide it without a permission logic, which this engine does not have (DESIGN.md section 5, C14).",
 }
 
